@@ -168,6 +168,8 @@ pub fn run(rng: &mut StdRng, thorough: bool, t: &mut Tracer) {
         upd(&mut s, t, 1, DAY, now + 10);             // not the owner
         upd(&mut s, t, 9, 2 * DAY, now + 10);         // stranger
         upd(&mut s, t, 0, 86399, now);                // too short at boundary
+        upd(&mut s, t, 0, 0, now + 10);               // no duration at all
+        upd(&mut s, t, 0, 1, now + 10);
         upd(&mut s, t, 0, DAY, now);                  // ok: exactly now, exactly one day
         q_cur(&s, t);
         upd(&mut s, t, 0, rng.gen_range(DAY..10 * DAY), now + rng.gen_range(0..5 * DAY)); // ok
